@@ -164,7 +164,9 @@ func (c *Builder) BuildBlock(ctx context.Context, pChainCtx *block.Context, pare
 			totalTxsSize += ltx.Size()
 			if totalTxsSize > c.config.TargetTxsSize {
 				c.log.Debug("Transactions in block exceeded allotted limit ", zap.Int("size", ltx.Size()))
+				restorableLock.Lock()
 				restorable = append(restorable, txs[li:]...)
+				restorableLock.Unlock()
 				break
 			}
 
